@@ -87,8 +87,10 @@ Proof. intros. unfold in_rangeb. lia. Qed.
 
 Lemma nthZ_in_or_default : forall A i (l : list A) d, In (nthZ i l d) l \/ nthZ i l d = d.
 Proof.
-  intros. unfold nthZ. destruct (i <? 0); [now right|].
-  destruct (nth_in_or_default (Z.to_nat i) l d); auto.
+  intros. unfold nthZ. destruct (i <? 0).
+  - destruct (- i <=? Z.of_nat (length l)); [|now right].
+    destruct (nth_in_or_default (length l - Z.to_nat (- i)) l d); auto.
+  - destruct (nth_in_or_default (Z.to_nat i) l d); auto.
 Qed.
 
 (* ------------------------------------------------------------------ *)
@@ -128,10 +130,17 @@ Lemma ag_coherent : forall W labels,
   ag_getall W labels = map (ag_getitem W labels) (seq 0 (length labels)).
 Proof. reflexivity. Qed.
 
+Lemma bools_eqb_eq : forall a b, bools_eqb a b = true -> a = b.
+Proof.
+  induction a as [|x a IH]; intros [|y b] H; simpl in H; try discriminate; [reflexivity|].
+  apply andb_prop in H. destruct H as [Hx H]. apply eqb_prop in Hx. subst. f_equal. now apply IH.
+Qed.
+
 Lemma pl_coherent : forall p n l,
   match p with
   | PLHard pl => length pl = n
   | PLSoft am => length am = n
+  | PLThr _ _ dec_item dec_bulk => dec_item = dec_bulk
   | _ => True
   end ->
   pl_getall p n = Some l -> l = map (pl_getitem p) (seq 0 n).
@@ -140,6 +149,41 @@ Proof.
   - now apply map_nth_seq_len.
   - now apply map_nth_seq_len.
   - reflexivity.
+Qed.
+
+(* the thresholded bulk accessor equals the per-sample list EXACTLY WHEN the two code paths
+   take the same threshold decision on every row *)
+Lemma pl_thr_coherent_iff : forall am ref di db n,
+  length am = n -> length di = n -> length db = n -> (forall y, In y am -> y <> -1) ->
+  (pl_getall (PLThr am ref di db) n = Some (map (pl_getitem (PLThr am ref di db)) (seq 0 n)) <-> di = db).
+Proof.
+  intros am ref di db n Ham Hdi Hdb Hne. simpl. split.
+  - intros H. inversion H as [H1]. clear H.
+    apply nth_ext with (d := false) (d' := false); [congruence|].
+    intros i Hi. rewrite Hdi in Hi.
+    assert (Hin : In i (seq 0 n)) by (apply in_seq; lia).
+    pose proof (proj1 (@map_ext_in_iff _ _ _ _ _) H1 i Hin) as E. simpl in E. unfold thr_label in E.
+    assert (Hy : nth i am 0 <> -1) by (apply Hne, nth_In; lia).
+    revert E. destruct (nth i di false), (nth i db false); intros E; try reflexivity; congruence.
+  - intros ->. reflexivity.
+Qed.
+
+(* under the contract a thresholded label is the row argmax where the rule says
+   "confidence > threshold" and the -1 marker elsewhere *)
+Lemma pl_thr_rule : forall am ref di db C labels idx,
+  contractb (WPseudo (PLThr am ref di db)) C labels = true ->
+  pl_getitem (PLThr am ref di db) idx = (if nth idx ref false then nth idx am 0 else -1) /\
+  (forall l, pl_getall (PLThr am ref di db) (length labels) = Some l ->
+             nth idx l (pl_getitem (PLThr am ref di db) idx) = pl_getitem (PLThr am ref di db) idx).
+Proof.
+  intros am ref di db C labels idx Hc. simpl in Hc.
+  repeat (apply andb_prop in Hc; destruct Hc as [Hc ?]).
+  apply bools_eqb_eq in H. apply bools_eqb_eq in H0. subst di db. split; [reflexivity|].
+  intros l Hl. simpl in Hl. inversion Hl; subst. clear Hl.
+  destruct (Nat.lt_ge_cases idx (length labels)) as [Hlt|Hge].
+  - rewrite nth_indep with (d' := thr_label am ref 0%nat) by (rewrite map_length, seq_length; exact Hlt).
+    rewrite map_nth. rewrite seq_nth by exact Hlt. reflexivity.
+  - apply nth_overflow. rewrite map_length, seq_length. exact Hge.
 Qed.
 
 Lemma fold_set_nth_length : forall semi (labels : list Z),
@@ -384,7 +428,8 @@ Proof.
   - inversion Hl; subst. apply ag_coherent.
   - eapply pl_coherent; [|eassumption].
     destruct p; simpl in Hc; auto;
-      repeat (apply andb_prop in Hc; destruct Hc as [Hc ?]); now apply len_is_true.
+      repeat (apply andb_prop in Hc; destruct Hc as [Hc ?]); try (now apply len_is_true).
+    apply bools_eqb_eq in H. apply bools_eqb_eq in H0. congruence.
   - inversion Hl; subst. eapply rc_coherent; eassumption.
   - inversion Hl; subst. apply se_coherent.
 Qed.
@@ -454,10 +499,9 @@ Proof.
   intros C p labels idx H Hidx. unfold contractb in H.
   apply andb_prop in H. destruct H as [H Hdraw].
   apply andb_prop in H. destruct H as [H Hlab].
+  apply andb_prop in H. destruct H as [H HC0].
   apply andb_prop in H. destruct H as [Hk Hs].
-  apply Z.ltb_lt in Hk. apply Z.leb_le in Hs.
-  assert (Hy : 0 <= nth idx labels 0 < C).
-  { apply in_rangeb_true. eapply forallb_In; [eassumption|]. now apply nth_In. }
+  apply Z.ltb_lt in Hk. apply Z.leb_le in Hs. apply Z.ltb_lt in HC0.
   unfold sc_getitem, sc_map_cls, sc_shape, sc_og.
   set (x := nthZ (nth idx labels 0) (sc_permv C p) 0).
   assert (Hx : 0 <= x < C).
@@ -516,15 +560,16 @@ Proof.
     unfold ag_getitem. eapply forallb_In; [eassumption|]. apply nth_In.
     rewrite ag_indices_nth by lia. apply ag_spec_lt; lia.
   - (* pseudo label *)
-    simpl. destruct p as [pl|am|am above|topk choice]; unfold contractb in Hc; simpl.
+    simpl. destruct p as [pl|am|am ref above dec_bulk|topk choice]; unfold contractb in Hc; simpl.
     + apply andb_prop in Hc. destruct Hc as [Hl Hpl]. apply len_is_true in Hl.
       eapply forallb_In; [eassumption|]. apply nth_In. lia.
     + apply andb_prop in Hc. destruct Hc as [Hl Ham]. apply len_is_true in Hl.
       apply label_okb_true. left. apply in_rangeb_true.
       eapply forallb_In; [eassumption|]. apply nth_In. lia.
-    + apply andb_prop in Hc. destruct Hc as [Hc Ham].
+    + apply andb_prop in Hc. destruct Hc as [Hc _]. apply andb_prop in Hc. destruct Hc as [Hc _].
+      apply andb_prop in Hc. destruct Hc as [Hc Ham].
       apply andb_prop in Hc. destruct Hc as [Hl _]. apply len_is_true in Hl.
-      destruct (nth idx above false); [|reflexivity].
+      unfold thr_label. destruct (nth idx above false); [|reflexivity].
       apply label_okb_true. left. apply in_rangeb_true.
       eapply forallb_In; [eassumption|]. apply nth_In. lia.
     + apply andb_prop in Hc. destruct Hc as [_ Hrows].
@@ -697,9 +742,30 @@ Proof.
     + apply smooth_nonneg_lem; [assumption|lia].
     + now apply smooth_sum_lem.
     + now apply smooth_argmax_lem.
-  - unfold oh_getitem. eexists; split; [reflexivity|].
+  - unfold oh_getitem.
+    assert (Hm1 : (nth idx labels 0 =? -1)%Z = false) by (apply Z.eqb_neq; lia). rewrite Hm1.
+    eexists; split; [reflexivity|].
     destruct (onehot_lem C (nth idx labels 0%Z) Hy) as [H1 [H2 H3]]. repeat split; try assumption.
     + unfold oh_vec. now rewrite spike_length.
     + intros j Hj. destruct (Nat.eq_dec j (Z.to_nat (nth idx labels 0%Z))) as [->|Hne]; [lra|].
       apply Qlt_le_weak. now apply H3.
+Qed.
+
+Lemma other_items_untouched_lem : forall w C labels ds name idx,
+  wrap w C labels ds (IOther name) idx = ds (IOther name) idx.
+Proof. reflexivity. Qed.
+
+Lemma wrapped_label_is_mapping_lem : forall w C labels ds idx,
+  wrap w C labels ds IClass idx = w_getitem w C labels idx.
+Proof. reflexivity. Qed.
+
+(* an unlabeled sample stays marked under both re-encodings (all -1 vector of the announced length) *)
+Lemma unlabeled_stays_marked_lem : forall e C labels idx,
+  nth idx labels 0%Z = (-1)%Z ->
+  match e with ESmooth sm => ~ sm == 0 | EOneHot => True end ->
+  e_getitem e C labels idx = EVec (repeat (-1)%Q (Z.to_nat C)).
+Proof.
+  intros e C labels idx Hy He. destruct e as [sm|]; simpl; rewrite Hy.
+  - unfold ls_getitem. destruct (Qeq_bool sm 0) eqn:E; [apply Qeq_bool_iff in E; contradiction|]. reflexivity.
+  - reflexivity.
 Qed.
